@@ -24,6 +24,6 @@ def literal_value(value: Any) -> str:
         return str(value) if math.isfinite(value) else f'float("{value}")'
 
     if isinstance(value, QName):
-        return f'QName("{value.text}")'
+        return f"QName({value.text!r})"
 
     return repr(value)
